@@ -1,7 +1,7 @@
 """C09 - the '>' operator returns the greatest entry of each group"""
 from ..rules import search, versions, mutation, config, memo
 
-DECIDES = ("sorted_search: per-segment sort key over all segments, group key = segments before '>', direction and pick agree, '>' read as '*' (R-SORT); FindInAll / GetFromAll group the typed searches by Finder / Getter instance alone (R-GROUPFINDER) and the configuration hands out one instance per table entry (R-FINDERID); get_last = find_one of self with the key set to '>' with the empty-Sid failsafe (R-GETNEW); the cached unfolded list is not rewritten in place (R-MUT). Also: the templates keep one placeholder per '/' segment, so version groups are cut at the right segment (R-SEGSHAPE); get_last is not memoised over the file system (R-PUREMEMO). The file-system finder yields only Sids of the searched type (R-SKIPS); aliases are values (R-ALIASVALUE).")
+DECIDES = ("sorted_search: per-segment sort key over all segments, group key = segments before '>', direction and pick agree, '>' read as '*' (R-SORT); FindInAll / GetFromAll group the typed searches by Finder / Getter instance alone (R-GROUPFINDER) and the configuration hands out one instance per table entry (R-FINDERID); get_last = find_one of self with the key set to '>' with the empty-Sid failsafe (R-GETNEW); the cached unfolded list is not rewritten in place (R-MUT). Also: the templates keep one placeholder per '/' segment, so version groups are cut at the right segment (R-SEGSHAPE); get_last is not memoised over the file system (R-PUREMEMO). The file-system finder yields only Sids of the searched type (R-SKIPS); aliases are values (R-ALIASVALUE). Every placeholder expression of the sid templates accepts the search symbols '*' and '>' (R-SEARCHSYM).")
 DOES_NOT_DECIDE = 'the concrete maxima'
 
 
@@ -16,4 +16,5 @@ def rules(ctx, tier):
         lambda: memo.rule_purememo(ctx),
         lambda: config.rule_aliasvalue(ctx),
         lambda: search.rule_skips(ctx),
+        lambda: config.rule_searchsym(ctx),
     ]
